@@ -5,7 +5,7 @@ use identity_core::convert::{FromJson, ToJson};
 use serde::de::DeserializeOwned;
 use serde::{Deserialize, Serialize};
 use serde_json::{json, Value};
-use std::collections::{BTreeMap, BTreeSet, VecDeque};
+use std::collections::{BTreeSet, VecDeque};
 use std::fmt::Debug;
 use vh::panicmon::catch;
 use vh::{Args, Report, Rng};
@@ -922,4 +922,789 @@ fn oset_lists<T: Elem>(cx: &mut Ctx, universe: &[T], max_len: usize) {
       Err(p) => cx.rep.violation(&format!("oset-json-panic@{}", p.file_only()), &format!("from_json({}) panicked: {}", js, p.msg), json!({"json":js})),
     }
   }
+}
+
+// ------------------------------------------------------------------------------------------------
+// phase 5: OneOrSet
+// ------------------------------------------------------------------------------------------------
+
+fn universe_keys<T: Elem>(universe: &[T]) -> Vec<T::K> {
+  let mut keys: Vec<T::K> = Vec::new();
+  for e in universe {
+    if !keys.contains(&e.hkey()) {
+      keys.push(e.hkey());
+    }
+  }
+  keys
+}
+
+/// Full observation of a OneOrSet that must hold exactly `model` (non-empty, duplicate-free).
+/// `ctor`: built through constructors/operations only (then a singleton must serialise bare).
+fn check_oos<T: Elem>(cx: &mut Ctx, v: &OneOrSet<T>, model: &[T], keys: &[T::K], ctor: bool, origin: &str, hist: &dyn Fn() -> Value) -> bool {
+  cx.rep.inc("oneorset_checks");
+  let r = catch(|| {
+    let sl = v.as_slice().to_vec();
+    let it: Vec<T> = v.iter().cloned().collect();
+    let de: Vec<T> = (**v).to_vec();
+    let ar: Vec<T> = v.as_ref().to_vec();
+    let gets: Vec<Option<T>> = (0..=v.len() + 1).map(|i| v.get(i).cloned()).collect();
+    let cont: Vec<bool> = keys.iter().map(|k| v.contains(&T::key_arg(k))).collect();
+    let cl = v.clone();
+    let cl_eq = &cl == v;
+    let iv = cl.clone().into_vec();
+    let vv: Vec<T> = Vec::from(cl.clone());
+    let os: Vec<T> = OrderedSet::from(cl).into_vec();
+    let _ = format!("{:?}", v);
+    (sl, it, de, ar, gets, cont, cl_eq, iv, vv, os, v.len())
+  });
+  let (sl, it, de, ar, gets, cont, cl_eq, iv, vv, os, len) = match r {
+    Ok(x) => x,
+    Err(p) => {
+      cx.rep.violation(
+        &format!("oneorset-accessor-panic@{}", p.file_only()),
+        &format!("[{}] accessor on OneOrSet {} ({}) panicked: {} at {}", T::KIND, show_list(model), origin, p.msg, p.loc()),
+        json!({"kind":T::KIND,"state":show_list(model),"origin":origin,"history":hist()}),
+      );
+      return false;
+    }
+  };
+  if sl.is_empty() {
+    cx.rep.violation(&format!("oneorset-empty:{}", origin), &format!("[{}] an empty OneOrSet exists ({})", T::KIND, origin), json!({"kind":T::KIND,"origin":origin,"history":hist()}));
+    return false;
+  }
+  if !keys_unique(&sl) {
+    cx.rep.violation(
+      &format!("oneorset-duplicate-keys:{}", origin),
+      &format!("[{}] OneOrSet holds duplicate keys: {} ({})", T::KIND, show_list(&sl), origin),
+      json!({"kind":T::KIND,"observed":show_list(&sl),"origin":origin,"history":hist()}),
+    );
+    return false;
+  }
+  let mut wrong: Vec<&str> = Vec::new();
+  if sl != model {
+    wrong.push("as_slice");
+  }
+  if it != model {
+    wrong.push("iter");
+  }
+  if de != model || ar != model {
+    wrong.push("deref");
+  }
+  if iv != model || vv != model {
+    wrong.push("into_vec");
+  }
+  if os != model {
+    wrong.push("into-ordered-set");
+  }
+  if len != model.len() {
+    wrong.push("len");
+  }
+  if !cl_eq {
+    wrong.push("clone-eq");
+  }
+  for (i, g) in gets.iter().enumerate() {
+    if g.as_ref() != model.get(i) {
+      wrong.push("get");
+      break;
+    }
+  }
+  for (i, k) in keys.iter().enumerate() {
+    if cont[i] != mpos(model, k).is_some() {
+      wrong.push("contains");
+      break;
+    }
+  }
+  if let Some(w) = wrong.first() {
+    cx.rep.violation(
+      &format!("oneorset-content:{}:{}", origin, w),
+      &format!("[{}] OneOrSet observed as {} but the model holds {} ({}; disagreeing {:?})", T::KIND, show_list(&sl), show_list(model), origin, wrong),
+      json!({"kind":T::KIND,"state":show_list(model),"observed":show_list(&sl),"origin":origin,"history":hist()}),
+    );
+    return false;
+  }
+  // JSON
+  match catch(|| v.to_json()) {
+    Ok(Ok(js)) => {
+      let val: Option<Value> = serde_json::from_str(&js).ok();
+      let bare = model.len() == 1 && val.as_ref() == Some(&model[0].jval());
+      let array = val.as_ref() == Some(&jarr(model));
+      if model.len() == 1 && ctor {
+        if bare {
+          cx.rep.inc("oneorset_singleton_bare");
+        } else {
+          cx.rep.violation(
+            &format!("oneorset-singleton-not-bare:{}", origin),
+            &format!("[{}] singleton OneOrSet {} built by {} serialises as {}", T::KIND, show_list(model), origin, js),
+            json!({"kind":T::KIND,"state":show_list(model),"json":js,"origin":origin,"history":hist()}),
+          );
+          return false;
+        }
+      } else if !(array || bare) {
+        cx.rep.violation(
+          "oneorset-json-form",
+          &format!("[{}] OneOrSet {} serialises as {}", T::KIND, show_list(model), js),
+          json!({"kind":T::KIND,"state":show_list(model),"json":js,"origin":origin,"history":hist()}),
+        );
+        return false;
+      }
+      match catch(|| OneOrSet::<T>::from_json(&js).map(|b| (&b == v, b.as_slice().to_vec()))) {
+        Ok(Ok((true, c))) if c == model => cx.rep.inc("json_roundtrips"),
+        Ok(other) => {
+          cx.rep.violation(
+            "oneorset-json-roundtrip",
+            &format!("[{}] own JSON {} of OneOrSet ({}) does not deserialise to an equal value: {:?}", T::KIND, js, origin, other.map(|(e, c)| (e, show_list(&c))).map_err(|e| e.to_string())),
+            json!({"kind":T::KIND,"state":show_list(model),"json":js,"origin":origin,"history":hist()}),
+          );
+          return false;
+        }
+        Err(p) => {
+          cx.rep.violation(&format!("oneorset-json-panic@{}", p.file_only()), &format!("from_json({}) panicked: {}", js, p.msg), json!({"json":js}));
+          return false;
+        }
+      }
+    }
+    Ok(Err(e)) => {
+      cx.rep.violation("oneorset-json-form", &format!("to_json failed on {}: {}", show_list(model), e), json!({"state":show_list(model)}));
+      return false;
+    }
+    Err(p) => {
+      cx.rep.violation(&format!("oneorset-json-panic@{}", p.file_only()), &format!("to_json panicked: {}", p.msg), json!({"state":show_list(model)}));
+      return false;
+    }
+  }
+  true
+}
+
+/// Judges a constructor outcome for a list `l`: must be rejected iff empty or (when `dups_matter`) duplicate keys.
+fn judge_oos_ctor<T: Elem, E: std::fmt::Display>(
+  cx: &mut Ctx,
+  res: Result<Result<OneOrSet<T>, E>, vh::panicmon::PanicRec>,
+  l: &[T],
+  expect_content: &[T],
+  must_reject: Option<&str>,
+  keys: &[T::K],
+  ctor: bool,
+  origin: &str,
+) -> Option<OneOrSet<T>> {
+  let ls = show_list(l);
+  match res {
+    Err(p) => {
+      cx.rep.violation(&format!("oneorset-{}-panic@{}", origin, p.file_only()), &format!("[{}] {}({}) panicked: {} at {}", T::KIND, origin, ls, p.msg, p.loc()), json!({"kind":T::KIND,"input":ls}));
+      None
+    }
+    Ok(Ok(v)) => {
+      cx.rep.inc("oneorset_accepted");
+      if let Some(why) = must_reject {
+        cx.rep.violation(
+          &format!("oneorset-accepts-{}:{}", why, origin),
+          &format!("[{}] OneOrSet {}({}) accepted although the input is {}", T::KIND, origin, ls, why),
+          json!({"kind":T::KIND,"input":ls,"origin":origin}),
+        );
+        return None;
+      }
+      let hist = || json!({"input": show_list(l), "origin": origin});
+      if check_oos(cx, &v, expect_content, keys, ctor, origin, &hist) {
+        Some(v)
+      } else {
+        None
+      }
+    }
+    Ok(Err(e)) => {
+      match must_reject {
+        Some("empty") => cx.rep.inc("oneorset_rejected_empty"),
+        Some(_) => cx.rep.inc("oneorset_rejected_duplicates"),
+        None => cx.rep.violation(
+          &format!("oneorset-rejects-valid:{}", origin),
+          &format!("[{}] OneOrSet {}({}) rejected a non-empty duplicate-free input: {}", T::KIND, origin, ls, e),
+          json!({"kind":T::KIND,"input":ls,"origin":origin}),
+        ),
+      }
+      None
+    }
+  }
+}
+
+fn oos_appends<T: Elem>(cx: &mut Ctx, start: &OneOrSet<T>, model: &[T], universe: &[T], keys: &[T::K], ctor: bool, depth: usize, hist: &mut Vec<String>) {
+  for x in universe {
+    let want_flag = mpos(model, &x.hkey()).is_none();
+    let mut want = model.to_vec();
+    if want_flag {
+      want.push(x.clone());
+    }
+    hist.push(format!("append({})", x.show()));
+    cx.rep.inc("oneorset_append_checked");
+    match catch(|| {
+      let mut v = start.clone();
+      let f = v.append(x.clone());
+      (v, f)
+    }) {
+      Err(p) => cx.rep.violation(&format!("oneorset-append-panic@{}", p.file_only()), &format!("append({}) on {} panicked: {}", x.show(), show_list(model), p.msg), json!({"history":hist})),
+      Ok((v, f)) => {
+        if f != want_flag {
+          cx.rep.violation(
+            "oneorset-append-result",
+            &format!("[{}] OneOrSet {}.append({}) returned {}", T::KIND, show_list(model), x.show(), f),
+            json!({"kind":T::KIND,"history":hist}),
+          );
+        } else {
+          let h = || json!(hist);
+          // a value that came out of serde as a one-element array stays outside the "built by constructors" rule until it grows
+          let ctor_now = ctor || want.len() > 1;
+          if check_oos(cx, &v, &want, keys, ctor_now, "append", &h) && depth > 1 {
+            oos_appends(cx, &v, &want, universe, keys, ctor_now, depth - 1, hist);
+          }
+        }
+      }
+    }
+    hist.pop();
+  }
+}
+
+/// `map`/`try_map`: the statement only demands non-emptiness, key uniqueness and normalisation of the result;
+/// additionally every result element must be an image and every image key must be represented.
+fn oos_map<T: Elem, S: Elem>(cx: &mut Ctx, src: &OneOrSet<T>, model: &[T], fname: &str, f: &dyn Fn(&T) -> S, fails: &dyn Fn(&T) -> bool) {
+  let images: Vec<S> = model.iter().map(f).collect();
+  let any_fail = model.iter().any(fails);
+  let skeys = universe_keys(&images);
+  for try_variant in [false, true] {
+    if !try_variant && any_fail {
+      continue;
+    }
+    cx.rep.inc("oneorset_map_checked");
+    let origin = if try_variant { "try_map" } else { "map" };
+    let r: Result<Result<OneOrSet<S>, String>, _> = catch(|| {
+      if try_variant {
+        src.clone().try_map(|t| if fails(&t) { Err(t.show()) } else { Ok(f(&t)) })
+      } else {
+        Ok(src.clone().map(|t| f(&t)))
+      }
+    });
+    let desc = format!("[{}->{}] {}({}) on {}", T::KIND, S::KIND, origin, fname, show_list(model));
+    match r {
+      Err(p) => cx.rep.violation(&format!("oneorset-{}-panic@{}", origin, p.file_only()), &format!("{} panicked: {} at {}", desc, p.msg, p.loc()), json!({"case":desc})),
+      Ok(Err(_)) => {
+        if !any_fail {
+          cx.rep.violation("oneorset-try_map-spurious-error", &format!("{} failed although the closure never failed", desc), json!({"case":desc}));
+        }
+      }
+      Ok(Ok(out)) => {
+        if any_fail {
+          // the closure's error was swallowed; the statement does not speak about it, only the invariants are judged
+          cx.rep.inc("oneorset_try_map_error_swallowed");
+        }
+        let got = catch(|| out.as_slice().to_vec()).unwrap_or_default();
+        let sub = got.iter().all(|g| images.iter().any(|i| i == g));
+        let covered = any_fail || images.iter().all(|i| got.iter().any(|g| g.hkey() == i.hkey()));
+        if !sub || !covered {
+          cx.rep.violation(
+            &format!("oneorset-{}-content", origin),
+            &format!("{} = {}; images are {}", desc, show_list(&got), show_list(&images)),
+            json!({"case":desc,"got":show_list(&got),"images":show_list(&images)}),
+          );
+        } else {
+          let h = || json!({"case": desc});
+          // judge the invariants against what the library holds (its choice among equal-key images is free)
+          check_oos(cx, &out, &got, &skeys, true, origin, &h);
+        }
+      }
+    }
+  }
+}
+
+trait MapSuite: Elem {
+  fn map_suite(cx: &mut Ctx, src: &OneOrSet<Self>, model: &[Self]);
+}
+impl MapSuite for u8 {
+  fn map_suite(cx: &mut Ctx, src: &OneOrSet<u8>, model: &[u8]) {
+    let never = |_: &u8| false;
+    oos_map::<u8, u8>(cx, src, model, "x%2", &|x| x % 2, &never);
+    oos_map::<u8, u8>(cx, src, model, "const", &|_| 7, &never);
+    oos_map::<u8, u8>(cx, src, model, "id", &|x| *x, &|x| *x == 2);
+    oos_map::<u8, P>(cx, src, model, "P{k:x/2,v:x}", &|x| P { k: x / 2, v: *x }, &never);
+    oos_map::<u8, String>(cx, src, model, "str(x%3)", &|x| (x % 3).to_string(), &|x| *x == 0);
+  }
+}
+impl MapSuite for P {
+  fn map_suite(cx: &mut Ctx, src: &OneOrSet<P>, model: &[P]) {
+    let never = |_: &P| false;
+    oos_map::<P, u8>(cx, src, model, "p.v", &|p| p.v, &never);
+    oos_map::<P, u8>(cx, src, model, "p.k", &|p| p.k, &|p| p.v == 1 && p.k == 2);
+    oos_map::<P, P>(cx, src, model, "swap", &|p| P { k: p.v, v: p.k }, &never);
+    oos_map::<P, P>(cx, src, model, "P{k:0,v:p.k}", &|p| P { k: 0, v: p.k }, &never);
+    oos_map::<P, String>(cx, src, model, "str(p.v)", &|p| p.v.to_string(), &never);
+  }
+}
+impl MapSuite for String {
+  fn map_suite(cx: &mut Ctx, src: &OneOrSet<String>, model: &[String]) {
+    let never = |_: &String| false;
+    oos_map::<String, u8>(cx, src, model, "len", &|s| s.len() as u8, &never);
+    oos_map::<String, String>(cx, src, model, "lower", &|s| s.to_lowercase(), &|s| s.is_empty());
+  }
+}
+
+fn oos_lists<T: MapSuite>(cx: &mut Ctx, universe: &[T], max_len: usize, append_depth: usize) {
+  let keys = universe_keys(universe);
+  let args = cx.args.clone();
+  let stride = (1000 / cx.scale.max(1)).max(1).min(16);
+  let mut lists: Vec<Vec<T>> = Vec::new();
+  for_each_list(universe, max_len, |i, l| {
+    if args.mine(i) && (i / args.nshards.max(1)) % stride == 0 {
+      lists.push(l.to_vec());
+    }
+  });
+  for l in &lists {
+    cx.rep.eval();
+    cx.rep.inc("oneorset_list_cases");
+    let uniq = keys_unique(l);
+    let dedup = dedup_first(l);
+    cx.rep.distinct("nontrivial", &format!("oneorset|{}|len{}|uniq{}|dedup{}", T::KIND, l.len(), uniq, dedup.len()));
+    let reject = if l.is_empty() { Some("empty") } else if !uniq { Some("duplicates") } else { None };
+    // TryFrom<Vec<T>>
+    let a = judge_oos_ctor(cx, catch(|| OneOrSet::try_from(l.clone())), l, l, reject, &keys, true, "try_from_vec");
+    // new_set / TryFrom<OrderedSet> on the collected (first-occurrence) set
+    let empty_only = if l.is_empty() { Some("empty") } else { None };
+    let b = judge_oos_ctor(cx, catch(|| OneOrSet::new_set(l.iter().cloned().collect::<OrderedSet<T>>())), l, &dedup, empty_only, &keys, true, "new_set");
+    judge_oos_ctor(cx, catch(|| OneOrSet::try_from(l.iter().cloned().collect::<OrderedSet<T>>())), l, &dedup, empty_only, &keys, true, "try_from_set");
+    // serde, JSON array
+    let js = jarr(l).to_string();
+    let c = judge_oos_ctor(cx, catch(|| OneOrSet::<T>::from_json(&js)), l, l, reject, &keys, false, "from_json");
+    if l.len() == 1 {
+      judge_oos_ctor(cx, catch(|| Ok::<_, String>(OneOrSet::new_one(l[0].clone()))), l, l, None, &keys, true, "new_one");
+      judge_oos_ctor(cx, catch(|| Ok::<_, String>(OneOrSet::from(l[0].clone()))), l, l, None, &keys, true, "from_value");
+      // serde, bare value
+      judge_oos_ctor(cx, catch(|| OneOrSet::<T>::from_json(&l[0].jval().to_string())), l, l, None, &keys, true, "from_json_bare");
+    }
+    for (v, model, ctor) in [(a, l.clone(), true), (b, dedup.clone(), true), (c, l.clone(), false)] {
+      let Some(v) = v else { continue };
+      let mut hist = vec![format!("start {}{}", show_list(&model), if ctor { "" } else { " (from JSON array)" })];
+      oos_appends(cx, &v, &model, universe, &keys, ctor, append_depth, &mut hist);
+      T::map_suite(cx, &v, &model);
+    }
+  }
+}
+
+// ------------------------------------------------------------------------------------------------
+// phase 6: OneOrMany
+// ------------------------------------------------------------------------------------------------
+
+fn check_oom<T: Elem>(cx: &mut Ctx, v: &OneOrMany<T>, model: &[T], ctor: bool, origin: &str, hist: &dyn Fn() -> Value) -> bool {
+  cx.rep.inc("oneormany_checks");
+  let probe: Vec<T> = model.to_vec();
+  let r = catch(|| {
+    let sl = v.as_slice().to_vec();
+    let it: Vec<T> = v.iter().cloned().collect();
+    let de: Vec<T> = (**v).to_vec();
+    let ar: Vec<T> = v.as_ref().to_vec();
+    let gets: Vec<Option<T>> = (0..=v.len() + 1).map(|i| v.get(i).cloned()).collect();
+    let mut cl = v.clone();
+    let cl_eq = &cl == v;
+    let gm: Vec<Option<T>> = (0..=v.len() + 1).map(|i| cl.get_mut(i).cloned()).collect();
+    let cont = probe.iter().all(|e| v.contains(e));
+    let iv = cl.clone().into_vec();
+    let vv: Vec<T> = Vec::from(cl.clone());
+    let ii: Vec<T> = cl.into_iter().collect();
+    let _ = format!("{:?}", v);
+    (sl, it, de, ar, gets, gm, cont, cl_eq, iv, vv, ii, v.len(), v.is_empty())
+  });
+  let (sl, it, de, ar, gets, gm, cont, cl_eq, iv, vv, ii, len, emp) = match r {
+    Ok(x) => x,
+    Err(p) => {
+      cx.rep.violation(
+        &format!("oneormany-accessor-panic@{}", p.file_only()),
+        &format!("[{}] accessor on OneOrMany {} ({}) panicked: {} at {}", T::KIND, show_list(model), origin, p.msg, p.loc()),
+        json!({"kind":T::KIND,"state":show_list(model),"origin":origin,"history":hist()}),
+      );
+      return false;
+    }
+  };
+  let mut wrong: Vec<&str> = Vec::new();
+  if sl != model {
+    wrong.push("as_slice");
+  }
+  if it != model || ii != model {
+    wrong.push("iter");
+  }
+  if de != model || ar != model {
+    wrong.push("deref");
+  }
+  if iv != model || vv != model {
+    wrong.push("into_vec");
+  }
+  if len != model.len() || emp != model.is_empty() {
+    wrong.push("len");
+  }
+  if !cl_eq {
+    wrong.push("clone-eq");
+  }
+  if !cont {
+    wrong.push("contains");
+  }
+  for (i, g) in gets.iter().enumerate() {
+    if g.as_ref() != model.get(i) || gm[i].as_ref() != model.get(i) {
+      wrong.push("get");
+      break;
+    }
+  }
+  if let Some(w) = wrong.first() {
+    cx.rep.violation(
+      &format!("oneormany-content:{}:{}", origin, w),
+      &format!("[{}] OneOrMany observed as {} but the model holds {} ({}; disagreeing {:?})", T::KIND, show_list(&sl), show_list(model), origin, wrong),
+      json!({"kind":T::KIND,"state":show_list(model),"observed":show_list(&sl),"origin":origin,"history":hist()}),
+    );
+    return false;
+  }
+  match catch(|| v.to_json()) {
+    Ok(Ok(js)) => {
+      let val: Option<Value> = serde_json::from_str(&js).ok();
+      let bare = model.len() == 1 && val.as_ref() == Some(&model[0].jval());
+      let array = val.as_ref() == Some(&jarr(model));
+      if model.len() == 1 && ctor {
+        if bare {
+          cx.rep.inc("oneormany_singleton_bare");
+        } else {
+          cx.rep.violation(
+            &format!("oneormany-singleton-not-bare:{}", origin),
+            &format!("[{}] singleton OneOrMany {} built by {} serialises as {}", T::KIND, show_list(model), origin, js),
+            json!({"kind":T::KIND,"state":show_list(model),"json":js,"origin":origin,"history":hist()}),
+          );
+          return false;
+        }
+      } else if !(array || bare) {
+        cx.rep.violation(
+          "oneormany-json-form",
+          &format!("[{}] OneOrMany {} serialises as {}", T::KIND, show_list(model), js),
+          json!({"kind":T::KIND,"state":show_list(model),"json":js,"origin":origin,"history":hist()}),
+        );
+        return false;
+      }
+      match catch(|| OneOrMany::<T>::from_json(&js).map(|b| (&b == v, b.as_slice().to_vec()))) {
+        Ok(Ok((true, c))) if c == model => cx.rep.inc("json_roundtrips"),
+        Ok(other) => {
+          cx.rep.violation(
+            "oneormany-json-roundtrip",
+            &format!("[{}] own JSON {} of OneOrMany ({}) does not deserialise to an equal value: {:?}", T::KIND, js, origin, other.map(|(e, c)| (e, show_list(&c))).map_err(|e| e.to_string())),
+            json!({"kind":T::KIND,"state":show_list(model),"json":js,"origin":origin,"history":hist()}),
+          );
+          return false;
+        }
+        Err(p) => {
+          cx.rep.violation(&format!("oneormany-json-panic@{}", p.file_only()), &format!("from_json({}) panicked: {}", js, p.msg), json!({"json":js}));
+          return false;
+        }
+      }
+    }
+    Ok(Err(e)) => {
+      cx.rep.violation("oneormany-json-form", &format!("to_json failed on {}: {}", show_list(model), e), json!({"state":show_list(model)}));
+      return false;
+    }
+    Err(p) => {
+      cx.rep.violation(&format!("oneormany-json-panic@{}", p.file_only()), &format!("to_json panicked: {}", p.msg), json!({"state":show_list(model)}));
+      return false;
+    }
+  }
+  true
+}
+
+fn oom_pushes<T: Elem>(cx: &mut Ctx, start: &OneOrMany<T>, model: &[T], universe: &[T], ctor: bool, depth: usize, hist: &mut Vec<String>) {
+  for x in universe {
+    let mut want = model.to_vec();
+    want.push(x.clone());
+    hist.push(format!("push({})", x.show()));
+    cx.rep.inc("oneormany_push_checked");
+    match catch(|| {
+      let mut v = start.clone();
+      v.push(x.clone());
+      v
+    }) {
+      Err(p) => cx.rep.violation(&format!("oneormany-push-panic@{}", p.file_only()), &format!("push({}) on {} panicked: {}", x.show(), show_list(model), p.msg), json!({"history":hist})),
+      Ok(v) => {
+        let h = || json!(hist);
+        if check_oom(cx, &v, &want, ctor, "push", &h) && depth > 1 {
+          oom_pushes(cx, &v, &want, universe, ctor, depth - 1, hist);
+        }
+      }
+    }
+    hist.pop();
+  }
+}
+
+fn oom_lists<T: Elem>(cx: &mut Ctx, universe: &[T], max_len: usize, push_depth: usize) {
+  let args = cx.args.clone();
+  let stride = (1000 / cx.scale.max(1)).max(1).min(16);
+  let mut lists: Vec<Vec<T>> = Vec::new();
+  for_each_list(universe, max_len, |i, l| {
+    if args.mine(i) && (i / args.nshards.max(1)) % stride == 0 {
+      lists.push(l.to_vec());
+    }
+  });
+  for l in &lists {
+    cx.rep.eval();
+    cx.rep.inc("oneormany_list_cases");
+    cx.rep.distinct("nontrivial", &format!("oneormany|{}|len{}|uniq{}", T::KIND, l.len(), keys_unique(l)));
+    let ls = show_list(l);
+    let hist = || json!({"input": show_list(l)});
+    let mut starts: Vec<(OneOrMany<T>, bool)> = Vec::new();
+    // From<Vec<T>>
+    match catch(|| OneOrMany::from(l.clone())) {
+      Ok(v) => {
+        if check_oom(cx, &v, l, true, "from_vec", &hist) {
+          starts.push((v, true));
+        }
+      }
+      Err(p) => cx.rep.violation(&format!("oneormany-from_vec-panic@{}", p.file_only()), &format!("OneOrMany::from({}) panicked: {}", ls, p.msg), json!({"input":ls})),
+    }
+    // FromIterator under honest and dishonest (small) size hints
+    let n = l.len();
+    let hints: [(usize, Option<usize>); 10] =
+      [(n, Some(n)), (0, None), (0, Some(0)), (0, Some(1)), (1, Some(1)), (1, None), (1, Some(0)), (2, Some(1)), (0, Some(usize::MAX)), (n, None)];
+    for h in hints {
+      match catch(|| hinted(l.clone(), h).collect::<OneOrMany<T>>()) {
+        Ok(v) => {
+          cx.rep.inc("oneormany_collect_checked");
+          let hh = || json!({"input": show_list(l), "size_hint": format!("{:?}", h)});
+          check_oom(cx, &v, l, true, "from_iter", &hh);
+        }
+        Err(p) => cx.rep.violation(
+          &format!("oneormany-from_iter-panic@{}", p.file_only()),
+          &format!("collect of {} with size_hint {:?} panicked: {} at {}", ls, h, p.msg, p.loc()),
+          json!({"input":ls,"size_hint":format!("{:?}", h)}),
+        ),
+      }
+    }
+    if l.is_empty() {
+      match catch(OneOrMany::<T>::default) {
+        Ok(v) => {
+          if check_oom(cx, &v, l, true, "default", &hist) {
+            starts.push((v, true));
+          }
+        }
+        Err(p) => cx.rep.violation(&format!("oneormany-default-panic@{}", p.file_only()), &p.msg, json!({})),
+      }
+    }
+    if l.len() == 1 {
+      if let Ok(v) = catch(|| <OneOrMany<T> as From<T>>::from(l[0].clone())) {
+        check_oom(cx, &v, l, true, "from_value", &hist);
+      }
+      match catch(|| OneOrMany::<T>::from_json(&l[0].jval().to_string())) {
+        Ok(Ok(v)) => {
+          cx.rep.inc("json_accepted");
+          check_oom(cx, &v, l, true, "from_json_bare", &hist);
+        }
+        Ok(Err(e)) => cx.rep.violation("oneormany-json-rejects-valid", &format!("[{}] bare value {} rejected: {}", T::KIND, l[0].jval(), e), json!({"input":ls})),
+        Err(p) => cx.rep.violation(&format!("oneormany-json-panic@{}", p.file_only()), &p.msg, json!({"input":ls})),
+      }
+    }
+    // serde: JSON array (duplicates and emptiness are allowed here)
+    let js = jarr(l).to_string();
+    match catch(|| OneOrMany::<T>::from_json(&js)) {
+      Ok(Ok(v)) => {
+        cx.rep.inc("json_accepted");
+        if check_oom(cx, &v, l, false, "from_json", &hist) {
+          starts.push((v, false));
+        }
+      }
+      Ok(Err(e)) => cx.rep.violation("oneormany-json-rejects-valid", &format!("[{}] OneOrMany::from_json({}) rejected: {}", T::KIND, js, e), json!({"json":js})),
+      Err(p) => cx.rep.violation(&format!("oneormany-json-panic@{}", p.file_only()), &format!("from_json({}) panicked: {}", js, p.msg), json!({"json":js})),
+    }
+    // get_mut writes through
+    if !l.is_empty() {
+      let i = l.len() - 1;
+      let x = universe[0].clone();
+      let mut want = l.clone();
+      want[i] = x.clone();
+      if let Ok(v) = catch(|| {
+        let mut v = OneOrMany::from(l.clone());
+        if let Some(slot) = v.get_mut(i) {
+          *slot = x.clone();
+        }
+        v
+      }) {
+        check_oom(cx, &v, &want, true, "get_mut", &hist);
+      }
+    }
+    for (v, ctor) in starts {
+      // a deserialised one-element array is outside the "built by constructors" rule; once pushed to it has >= 2 elements
+      let mut h = vec![format!("start {}{}", ls, if ctor { "" } else { " (from JSON array)" })];
+      oom_pushes(cx, &v, l, universe, true, push_depth, &mut h);
+    }
+  }
+}
+
+// ------------------------------------------------------------------------------------------------
+// phase 7: other JSON values offered for deserialisation: totality + invariants of whatever is accepted
+// ------------------------------------------------------------------------------------------------
+
+fn hostile_json<T: MapSuite>(cx: &mut Ctx, universe: &[T]) {
+  let keys = universe_keys(universe);
+  let e0 = universe[0].jval().to_string();
+  let e1 = universe[universe.len() - 1].jval().to_string();
+  let mut inputs: Vec<String> = vec![
+    "".into(), " ".into(), "null".into(), "[]".into(), "[ ]".into(), "[null]".into(), "{}".into(), "[{}]".into(), "[[]]".into(), "\"\"".into(), "[\"\"]".into(),
+    "true".into(), "[true]".into(), "-1".into(), "256".into(), "[256]".into(), "1.5".into(), "[1,\"1\"]".into(), "[".into(), "]".into(), "[,]".into(),
+    "[1,0]".into(), "[[1,0]]".into(), "[[1,0],[1,1]]".into(), "[[1,0],[2,0]]".into(), "{\"k\":1}".into(), "{\"k\":1,\"v\":2,\"x\":3}".into(),
+    "[{\"k\":1,\"v\":2,\"x\":3},{\"k\":1,\"v\":3}]".into(), "{\"k\":1,\"v\":2,\"k\":3}".into(), "{\"v\":2,\"k\":1}".into(),
+  ];
+  inputs.push(format!("[{}]", e0));
+  inputs.push(format!("[{},{}]", e0, e0));
+  inputs.push(format!("[{},{},]", e0, e1));
+  inputs.push(format!("[[{}]]", e0));
+  inputs.push(format!("[{},null]", e0));
+  inputs.push(format!("[{},[{}]]", e0, e1));
+  inputs.push(format!(" [ {} , {} ] ", e0, e1));
+  inputs.push(format!("{} {}", e0, e1));
+  inputs.push(format!("[{}", vec![e0.clone(); 300].join(",")));
+  inputs.push(format!("[{}]", vec![e0.clone(); 300].join(",")));
+  inputs.push(format!("{}{}{}", "[".repeat(200), e0, "]".repeat(200)));
+  for (i, js) in inputs.iter().enumerate() {
+    if !cx.args.mine(i as u64) {
+      continue;
+    }
+    cx.rep.eval();
+    cx.rep.inc("hostile_json_cases");
+    let hist = || json!({"json": js});
+    match catch(|| OrderedSet::<T>::from_json(js)) {
+      Ok(Ok(s)) => {
+        cx.rep.inc("json_accepted");
+        let got = catch(|| s.as_slice().to_vec()).unwrap_or_default();
+        if !keys_unique(&got) {
+          cx.rep.violation("oset-json-accepts-duplicates", &format!("[{}] OrderedSet::from_json({}) = {}", T::KIND, js, show_list(&got)), json!({"json":js}));
+        } else {
+          check_state(cx, &s, &got, &keys, &hist);
+        }
+      }
+      Ok(Err(_)) => cx.rep.inc("json_rejected"),
+      Err(p) => cx.rep.violation(&format!("oset-json-panic@{}", p.file_only()), &format!("OrderedSet::from_json({}) panicked: {}", js, p.msg), json!({"json":js})),
+    }
+    match catch(|| OneOrSet::<T>::from_json(js)) {
+      Ok(Ok(v)) => {
+        cx.rep.inc("json_accepted");
+        let got = catch(|| v.as_slice().to_vec()).unwrap_or_default();
+        let gk = universe_keys(&got);
+        check_oos(cx, &v, &got, &gk, false, "from_json", &hist);
+      }
+      Ok(Err(_)) => cx.rep.inc("json_rejected"),
+      Err(p) => cx.rep.violation(&format!("oneorset-json-panic@{}", p.file_only()), &format!("OneOrSet::from_json({}) panicked: {}", js, p.msg), json!({"json":js})),
+    }
+    match catch(|| OneOrMany::<T>::from_json(js)) {
+      Ok(Ok(v)) => {
+        cx.rep.inc("json_accepted");
+        let got = catch(|| v.as_slice().to_vec()).unwrap_or_default();
+        check_oom(cx, &v, &got, false, "from_json", &hist);
+      }
+      Ok(Err(_)) => cx.rep.inc("json_rejected"),
+      Err(p) => cx.rep.violation(&format!("oneormany-json-panic@{}", p.file_only()), &format!("OneOrMany::from_json({}) panicked: {}", js, p.msg), json!({"json":js})),
+    }
+  }
+}
+
+// ------------------------------------------------------------------------------------------------
+
+fn proj_universe(nkeys: u8, npay: u8) -> (Vec<P>, Vec<u8>) {
+  let mut e = Vec::new();
+  for k in 1..=nkeys {
+    for v in 0..npay {
+      e.push(P { k, v });
+    }
+  }
+  (e, (1..=nkeys).collect())
+}
+
+fn main() {
+  let args = Args::parse();
+  let scale = args.extra_u64("scale", 1000).max(1);
+  let thorough = args.thorough;
+  let mut cx = Ctx { rep: Report::new("C19"), args: args.clone(), scale };
+  cx.rep.rule(
+    "cases = (1) every operation sequence (append/prepend/update/replace/remove with every operand of a small universe) up to a \
+     bounded length, from the empty set, for u8 (key == value) and a {k,v} struct keyed by k; (2) every reachable model state x every \
+     operation with full accessor + JSON observation; (3) seeded random sequences of length 60/180 from states built through every \
+     construction path (u8, struct, String); (4) every list of length 0..=4(5) over a small universe offered to TryFrom<Vec>, \
+     FromIterator (several size hints) and serde, for OrderedSet, OneOrSet (plus append chains, map/try_map) and OneOrMany (plus push \
+     chains); (5) malformed/odd JSON. Each step is judged against a duplicate-free Vec model (result flag + full order). \
+     distinct_exact = exhaustive sequences (distinct by construction); nontrivial classes = (phase, element kind, operation, which \
+     operand keys are present, length before) resp. (kind, list length, keys unique?, de-duplicated length)",
+  );
+
+  // ---- (1) exhaustive sequences
+  let a4: Vec<u8> = vec![1, 2, 3, 4];
+  let a3: Vec<u8> = vec![1, 2, 3];
+  let a2: Vec<u8> = vec![1, 2];
+  let (b42, b42k) = proj_universe(4, 2);
+  let (b32, b32k) = proj_universe(3, 2);
+  let (b22, b22k) = proj_universe(2, 2);
+  if thorough {
+    exhaustive_sequences(&mut cx, "u8x4", &a4, &a4, 6);
+    exhaustive_sequences(&mut cx, "u8x3", &a3, &a3, 7);
+    exhaustive_sequences(&mut cx, "u8x2", &a2, &a2, 8);
+    exhaustive_sequences(&mut cx, "proj4x2", &b42, &b42k, 5);
+    exhaustive_sequences(&mut cx, "proj3x2", &b32, &b32k, 6);
+    exhaustive_sequences(&mut cx, "proj2x2", &b22, &b22k, 7);
+  } else {
+    exhaustive_sequences(&mut cx, "u8x4", &a4, &a4, 5);
+    exhaustive_sequences(&mut cx, "u8x3", &a3, &a3, 6);
+    exhaustive_sequences(&mut cx, "u8x2", &a2, &a2, 7);
+    exhaustive_sequences(&mut cx, "proj4x2", &b42, &b42k, 4);
+    exhaustive_sequences(&mut cx, "proj3x2", &b32, &b32k, 5);
+    exhaustive_sequences(&mut cx, "proj2x2", &b22, &b22k, 6);
+  }
+
+  // ---- (2) closure of the state graph
+  if thorough {
+    let a5: Vec<u8> = vec![1, 2, 3, 4, 5];
+    let (b52, b52k) = proj_universe(5, 2);
+    closure(&mut cx, "u8x5", &a5, &a5);
+    closure(&mut cx, "proj5x2", &b52, &b52k);
+  } else {
+    closure(&mut cx, "u8x4", &a4, &a4);
+    closure(&mut cx, "proj4x2", &b42, &b42k);
+  }
+  let strs: Vec<String> = ["", "a", "b", "ab", "A", "\u{e9}", "a ", "b\u{0}"].iter().map(|s| s.to_string()).collect();
+  closure(&mut cx, "string3", &strs[..3], &strs[..3]);
+
+  // ---- (3) random sequences
+  let mut rng = args.rng(19);
+  let n_seq = cx.scaled(if thorough { 480_000 } else { 24_000 }) / args.nshards.max(1) / 3 + 1;
+  let a8: Vec<u8> = vec![0, 1, 2, 3, 7, 128, 254, 255];
+  let (b63, _) = proj_universe(6, 3);
+  random_sequences(&mut cx, &mut rng, "u8", &a8, n_seq, 60);
+  random_sequences(&mut cx, &mut rng, "proj", &b63, n_seq, 60);
+  random_sequences(&mut cx, &mut rng, "string", &strs, n_seq, 60);
+
+  // ---- (4) lists through constructors and serde
+  let ml = if thorough { 5 } else { 4 };
+  let (b3x2, _) = proj_universe(3, 2);
+  let s3: Vec<String> = strs[..3].to_vec();
+  oset_lists(&mut cx, &a3, ml);
+  oset_lists(&mut cx, &b3x2, ml);
+  oset_lists(&mut cx, &s3, ml);
+  oos_lists(&mut cx, &a4, 4, 2);
+  oos_lists(&mut cx, &b3x2, 4, 2);
+  oos_lists(&mut cx, &s3, 4, 2);
+  oom_lists(&mut cx, &a3, 4, 2);
+  oom_lists(&mut cx, &b3x2, 4, if thorough { 2 } else { 1 });
+  oom_lists(&mut cx, &s3, 4, 2);
+
+  // ---- (5) odd JSON
+  hostile_json(&mut cx, &a3);
+  hostile_json(&mut cx, &b3x2);
+  hostile_json(&mut cx, &s3);
+
+  // the same loose-upper-bound situation with a std-only iterator (upper bound usize::MAX, three items)
+  if args.shard == 0 {
+    cx.rep.eval();
+    match catch(|| (0..usize::MAX).map_while(|i| if i < 3 { Some(i as u8) } else { None }).collect::<OrderedSet<u8>>()) {
+      Ok(s) => {
+        cx.rep.inc("oset_collect_checked");
+        if catch(|| s.as_slice().to_vec()).unwrap_or_default() != vec![0u8, 1, 2] {
+          cx.rep.violation("oset-collect-content", "(0..usize::MAX).map_while(i<3).collect() is not [0,1,2]", json!({}));
+        }
+      }
+      Err(p) => cx.rep.violation(
+        &format!("oset-collect-panic:loose-upper-max@{}", p.file_only()),
+        &format!("(0..usize::MAX).map_while(|i| (i < 3).then_some(i as u8)).collect::<OrderedSet<u8>>() panicked: {} at {}", p.msg, p.loc()),
+        json!({"kind":"u8","iterator":"(0..usize::MAX).map_while(..3 items..)","size_hint":"(0, Some(usize::MAX))"}),
+      ),
+    }
+  }
+  cx.rep.finish();
 }
